@@ -88,7 +88,7 @@ void run(Ctx &ctx) {
     ip6_product(ctx, z.ip_groups3, z.ip_groups4, [&](const Str &s) { b.run(s.data(), (int)s.size()); });
     ipfuture_product(ctx, z.fut_len, [&](const Str &s) { b.run(s.data(), (int)s.size()); });
     if (z.octets) octet_product(ctx, [&](const Str &s) { b.run(s.data(), (int)s.size()); });
-    if (z.octets) { octet_sweep(ctx, [&](const Str &s) { b.run(s.data(), (int)s.size()); }); hexgroup_sweep(ctx, [&](const Str &s) { b.run(s.data(), (int)s.size()); }); dotted_family(ctx, [&](const Str &s) { b.run(s.data(), (int)s.size()); }); }
+    if (z.octets) { octet_sweep(ctx, [&](const Str &s) { b.run(s.data(), (int)s.size()); }); hexgroup_sweep(ctx, [&](const Str &s) { b.run(s.data(), (int)s.size()); }); dotted_family(ctx, [&](const Str &s) { b.run(s.data(), (int)s.size()); }); userinfo_ip_family(ctx, [&](const Str &s) { b.run(s.data(), (int)s.size()); }); }
     uint64_t idx = 0;
     shape_product(ctx.secondary ? 0 : ctx.quick() ? 1 : 2, [&](const Str &s) { if (ctx.mine(idx++)) b.run(s.data(), (int)s.size()); });
     { Both bs(ctx, 520); uint64_t si = 0; stretch_family(ctx.secondary ? 0 : ctx.quick() ? 1 : 2, [&](const Str &s) { if (ctx.mine(si++) && !ctx.expired()) { bs.run(s.data(), (int)s.size()); ctx.st.count("stretch_family"); } });
